@@ -22,7 +22,7 @@ RULE = ("accuracy/precision/recall/F-beta(1/2,1,2) on all pairs of binary vector
         "<=4/6 enumerated by TLC; homogeneity/completeness/V on all labelling pairs over 3 labels of length <=4/5 each with "
         "swap and injective relabelling; plus seeded random inputs of length <=200 (class balances down to a single "
         "positive/negative, tied/constant/continuous scores, scores k*2^e (e=-70..40) and neighbouring floats 2^e+k ulps, targets (a/U+off)*2^e incl. the offset family off=2^30,1e9 (f64) / 2^15,5e4 (f32), 1..8(16) clusters with arbitrary labels, "
-        "product/identical/dyadic layouts, length mismatches) and quick_argsort vectors. An evaluation is non-trivial "
+        "product/identical/dyadic layouts, length mismatches), a length ladder 255..1024 around the multiples of 256 for every metric, median-of-three-killer score orders of 72..400 distinct scores, owned ndarray vectors with negative stride, and quick_argsort vectors. An evaluation is non-trivial "
         "when it is an AUC call with tied, rescaled or neighbouring-float scores, or a binary metric with a single positive or negative, or a regression "
         "call with non-integer, rescaled or offset targets, or a clustering call with a single-class labelling or a mixed dyadic "
         "table or an exactly independent pair; distinct = distinct (metric, type, a, b, beta, U, e) digests")
@@ -32,7 +32,7 @@ KEY_SINGLE_CLUSTER = "hcv: labels_pred has a single cluster -> completeness is n
 
 TRACE_SPEC = ("metrics/MetricsTrace.tla", "metrics/MetricsTrace.cfg")
 MUST_HIT = ("accuracy", "precision", "recall", "fbeta", "auc", "mse", "mae", "r2", "LengthMismatch", "Unconstrained",
-            "AucTies", "AucConstant", "SinglePosOrNeg", "Scaled", "Offset", "AucScaled", "AucNeighbours", "AucCloserThanEps", "R2ScaledFar", "Expect", "HCV", "HcvSingleClass", "HcvPure", "HcvMixed",
+            "AucTies", "AucConstant", "SinglePosOrNeg", "Scaled", "Offset", "AucScaled", "AucNeighbours", "AucCloserThanEps", "R2ScaledFar", "AucKiller", "ArgSortKiller", "LengthLadder", "BlockMultiple", "HcvLadder", "NdStrided", "HcvNdStrided", "Expect", "HCV", "HcvSingleClass", "HcvPure", "HcvMixed",
             "HcvDyadic", "HcvDyadicMixed", "HcvIndependent", "HcvIdentical", "ArgSort", "ArgSortLong")
 
 
@@ -148,7 +148,7 @@ def run(ctx):
                        "shift invariant, so the exact rationals are evaluated on the small integers)",
                        "AUC scores enter the specification as dense ranks (order and ties preserved)",
                        "outputs are compared at round(v*2^S); S is chosen by the harness from the input magnitudes only",
-                       "clustering inputs have <=200 items and <=16 classes (margin of the <1 clause)"]
+                       "clustering inputs have <=1024 items and <=8 classes (<=200 items when up to 16 clusters): margin of the <1 clause"]
     return ctx.finish(RULE, len(nt), exhaustive=True,
                       explanation="exhaustive refers to the enumerated small domains named in the rule (the sampled length-3/4 "
                                   "target pairs and the random part are not exhaustive)")
